@@ -173,7 +173,8 @@ Fixpoint strs_eqb (a b : list string) : bool :=
 Record case := mkCase {
   c_store : store; c_filter : nfilter;
   c_obs : option (list (string * bool));       (* filterNodes through the export shim *)
-  c_locked : option (list string)              (* node map handed to the withNodesPodLocked callback, keys sorted *)
+  c_locked : option (list string);             (* node map handed to the withNodesPodLocked callback, keys sorted *)
+  c_listed : option (list string)              (* public API: names streamed by Calcium.ListPodNodes(pod, labels, all), sorted *)
 }.
 
 Fixpoint obs_eqb (a b : list (string * bool)) : bool :=
@@ -189,7 +190,15 @@ Definition model_obs (c : case) : option (list (string * bool)) :=
   | Some ns => Some (map (fun n => (n_name n, available n)) ns)
   end.
 
+(* ListPodNodes = GetNodesByPod(pod, labels, all), ignoring includes / excludes *)
+Definition listed_names (st : store) (f : nfilter) : list string :=
+  sort_str (map n_name (get_nodes_by_pod st f)).
+
 Definition agree (c : case) : bool :=
+  match c_listed c with
+  | Some l => strs_eqb (listed_names (c_store c) (c_filter c)) l
+  | None => false
+  end &&
   match model_obs c, c_obs c with
   | None, None => match c_locked c with None => true | Some _ => false end
   | Some m, Some o =>
@@ -246,7 +255,14 @@ Definition select_ok (st : store) (f : nfilter) (obs : option (list string)) : b
       && forallb (fun x => mem_str x names) (expected_names st f)
   end.
 
+(* pod-based listing through the public API: the pod's nodes with the labels, down / bypassed
+   ones skipped unless all (include and exclude lists do not apply to ListPodNodes) *)
+Definition listed_ok (st : store) (f : nfilter) (obs : option (list string)) : bool :=
+  let f' := mkFilter (f_pod f) [] [] (f_labels f) (f_all f) in
+  match obs with Some names => select_ok st f' (Some names) | None => false end.
+
 Definition ok (c : case) : bool :=
+  listed_ok (c_store c) (c_filter c) (c_listed c) &&
   select_ok (c_store c) (c_filter c) (option_map (map fst) (c_obs c))
   && select_ok (c_store c) (c_filter c) (c_locked c)
   (* availability reported for a selected node is the store's verdict *)
